@@ -5,6 +5,7 @@ CONSTANTS Producers = {"p1", "p2", "p3"}
           RecheckThread = TRUE
           SafeEnv = TRUE
           Locks = TRUE
+          RealTime = FALSE
           NMsgs = 2
           ScriptSet = {"reset"}
           Script2Set = {"none"}
@@ -16,6 +17,7 @@ INVARIANT ProducerOrder
 INVARIANT SyncDeliveredOnReturn
 INVARIANT WorkerOnly
 INVARIANT AsyncOrder
+INVARIANT RealTimeOrder
 INVARIANT LateMessagesSync
 INVARIANT DrainBeforeStop
 INVARIANT NoUseAfterFree
